@@ -29,6 +29,8 @@ def nontrivial(st):
     return 'queryall' in ops and sum(1 for o in ops if o == 'write') >= 2
 import stream_fams
 fams += stream_fams.c09(c)
+import trace_fams
+fams += trace_fams.c09(c)
 tot, stats, samples, nontriv, cover = ec.run_families(c, fams, binp, nontrivial)
 extra = {}
 try:
